@@ -3,8 +3,10 @@
     Statements only; proofs live in Proofs/TransformProofs.v.
     Plates have at most 26 rows (one row letter per row); the bound is stated wherever it is used.
     For the shifter only [RB <= 26] is assumed: [RA <= 26] follows from [RA + dr <= RB].
-    The lookup table of the randomiser is CONSTRUCTED (section "the table built by the constructor",
-    definitions and proofs in Proofs/RandomizerProofs.v) from the arrays that the calls of
+    The lookup table of the randomiser is CONSTRUCTED (section "the table built by the constructor";
+    the definitions [mk_rand_table], [rand_requests], [rand_table_of], ... are in Model/Transform.v - it is
+    [mk_rand_table] that Corr/CheckPure.v evaluates -, the proofs in Proofs/RandomizerProofs.v) from the
+    arrays that the calls of
     [rng.permutation] returned; those draws are the only unknown and "each draw is a Permutation of
     the array the generator was asked to permute" is the only hypothesis. *)
 From Robo Require Import Prelude Str Wells Transform TransformProofs RandomizerProofs.
@@ -215,7 +217,7 @@ Print Assumptions C15_rand_rel.
     is the library's [lookup] (items in insertion order, IndexError cases included) was checked by a
     generated [vm_compute] comparison over 17 shapes x 5 seeds x 3 modes (see [C15_example_rand_ctor]). *)
 
-(** the definitions (they live in Proofs/RandomizerProofs.v), restated *)
+(** the definitions (they live in Model/Transform.v and are evaluated by the correspondence check), restated *)
 Theorem C15_rand_table_def :
   (forall R C, well_columns R C = map (fun c => map (fun r => well_id r c) (seq 0 (Nat.min 26 R))) (seq 0 C)) /\
   (forall reqs draws,
